@@ -90,6 +90,12 @@ CLAIMED = {
         text="Lean theorems for every struct and attribute placement: at most one field is selected and the generated body refers to exactly that field; without forward the returned object is the field's own storage; with forward / Index / IntoIterator / a listed other type it is exactly the field's own implementation applied to the field; a listed type equal to the field type (token-equal: direct; rustc-equal via the autoref helper: specialised) yields the field itself; the owned / ref / ref_mut IntoIterator impls iterate the same field. The model of State (struct + field attributes, ignore / forward / owned / ref / ref_mut) and of the seven derives is compared on 3500 generated structs with the working-tree expansions (selected member, Target / return type, body tokens); 43 structs are run with the real macro: addresses, write-through, neighbour fields untouched, alias / path spelled field types with a reflexive AsRef that returns a different object, all three iteration forms",
         note="Lean kernel; model tied by differential run; which ExtractRef impl rustc's autoref probing selects is modelled by a boolean and validated by running src/as.rs, not proved",
         ref="DESIGN.md §4 C14"),
+    "C15": dict(
+        level="proof",
+        technique="Lean 4 theorem over all caller scopes about a name-resolution model + kernel-decided closure of the table of every quote!/parse_quote! template regenerated from the source by a translator on every run + hostile-scope compiles and behaviour digest with the real macro",
+        text="Lean: for every two caller scopes that agree on `derive_more`, a template without escaping heads resolves every name identically (resolve_independent, all scopes, no bound); an escaping path head really is a dependency (escaping_path_depends); the table of all 247 templates of impl/src, regenerated from the working tree by the translator on every run, has no escaping head (all_templates_closed, decide +kernel), hence expansions_scope_independent for the current source. Tie: the translator is checked on every run (every template re-prints into its source span; id table vs names by gen-selfcheck; identifier sequences of the Lean table == extraction). Real macro: a 39-item corpus covering all 50 derives and their attribute modes compiled in a plain module, a #[no_implicit_prelude] module and a module redefining 80 prelude types / variants / traits (with the prelude traits' methods, blanket-implemented) / macros, plus a #![no_std] crate; the 127-entry behaviour digest must be identical in all modules. thorough: one module per redefined name and kind",
+        note="Lean kernel; model regenerated by translator; rustc's name resolution is modelled (first segment / macro / method lookups), validated by the hostile compiles; built-in attributes and primitive-type shadowing are outside the model",
+        ref="DESIGN.md §4 C15"),
 }
 
 NOT_APPLICABLE = {}
